@@ -187,7 +187,14 @@ func (m *Machine) pickWallet(t *rapid.T, label string) *wenv.WalletH {
 
 // trusted mints of a wallet (URLs)
 func trusted(h *wenv.WalletH) []string {
-	l := h.W.TrustedMints()
+	var l []string
+	for _, u := range h.W.TrustedMints() {
+		host := strings.TrimPrefix(u, "http://")
+		// skip the other spellings a restart may have introduced (the same mint): trailing dot, all upper case
+		if !strings.HasSuffix(u, ".") && !(host == strings.ToUpper(host) && host != strings.ToLower(host)) {
+			l = append(l, u)
+		}
+	}
 	sort.Strings(l)
 	return l
 }
@@ -799,6 +806,17 @@ func (m *Machine) opRotate(t *rapid.T) bool {
 
 func (m *Machine) opRestart(t *rapid.T) bool {
 	h := m.pickWallet(t, "restart_wallet")
+	if rapid.IntRange(0, 3).Draw(t, "restart_under_other_spelling_first") == 0 {
+		// the wallet is started once with its mint's URL in another spelling (a trailing slash, as host names are
+		// case-insensitive; a configuration file or a token may have it) and then again as always: it has met its own mint under a second name
+		alias := h.Default + "." // the fully qualified form of the same host name
+		if rapid.Bool().Draw(t, "alias_upper_case") {
+			alias = "http://" + strings.ToUpper(strings.TrimPrefix(h.Default, "http://"))
+		}
+		aerr := m.E.RestartAs(h, alias)
+		m.logf("%s restarts with its mint written %s: err=%v", h.Name, alias, aerr)
+		m.Count["restart_under_other_spelling"]++
+	}
 	err := m.E.Restart(h)
 	m.logf("%s restarts: err=%v", h.Name, err)
 	if err != nil {
